@@ -760,6 +760,16 @@ fn build_item(d: &mut Dice) -> (Item, Vec<String>, Vec<String>) {
                 } else if n > 0 && d.chance(20) {
                     fs[0].attrs.push(["#[error(not(source))]", "#[error(ignore)]", "#[error(source)]"][d.pick(3)].to_string());
                 }
+                if allow_generics && n > 0 && d.chance(25) {
+                    // the source may be an associated type of a type parameter (`T::Err`-style): the derive bounds the field type
+                    let assoc_param = if item.gens.tys.iter().any(|t| t.0 == "Q") { None } else { Some("Q") };
+                    if let Some(q) = assoc_param {
+                        item.gens.tys.push((q.to_string(), Some("Tr".to_string()), None));
+                        let k = fs.iter().position(|f| f.name.as_deref() == Some("source") || f.attrs.iter().any(|a| a == "#[error(source)]")).unwrap_or(0);
+                        fs[k].ty = [format!("{q}::A"), format!("<{q} as Tr>::A")][d.pick(2)].clone();
+                        labels.push("error_source_is_associated_type".into());
+                    }
+                }
                 item.cont_attrs.push("#[display(\"err\")]".into());
                 item.body = if n == 0 { ItemBody::Unit } else if named { ItemBody::Named(fs) } else { ItemBody::Tuple(fs) };
             } else {
@@ -936,6 +946,12 @@ fn build_item(d: &mut Dice) -> (Item, Vec<String>, Vec<String>) {
             item.cont_attrs.push(format!("#[repr({repr})]"));
             let nv = d.range(1, 4);
             let mut vs: Vec<VariantDef> = (0..nv).map(|i| mk_variant(VNAMES[i], &[], 0, d)).collect();
+            if d.chance(25) {
+                // variant names differing only in case are legal
+                vs.push(mk_variant("Mb", &[], 0, d));
+                vs.push(mk_variant("MB", &[], 0, d));
+                labels.push("variants_differing_only_in_case".into());
+            }
             if d.chance(40) {
                 let k = d.pick(nv);
                 vs[k].discriminant = Some(["5", "1 << 3", "2 + 40"][d.pick(3)].to_string());
